@@ -34,6 +34,7 @@ typedef struct fsm {
   slist_t   m_substate_list;
   int       m_history_last[NR_CAP];     /* history policy memory (Always/Shallow) */
   int       m_history_init[NR_CAP];     /* history policy initial states */
+  struct fsm* m_root_sm;                /* backmp11: *m_root_sm (a non_propagating pointer wrapper) */
 } fsm_t;
 
 /* ---- ghost state (ledger) ---- */
